@@ -8,6 +8,8 @@ HARNESS_PKGS = {
     "telemetry": ("server/telemetry", "telemetry"),
 }
 
+LOG_SOURCES = ["server/commitlog/" + f for f in ("commitlog.go", "segment.go", "index.go", "util.go", "reader.go",
+                                                   "message_set.go", "message.go", "leader_epoch_cache.go")]
 LOG_ASSUME = [
     "index derived from the records (one slot per record): exact for crash-free executions; crash states are C05's model",
     "message timestamps are non-zero (segment.write treats firstWriteTime == 0 as 'no write yet'); time.Now().UnixNano() never is",
@@ -18,11 +20,19 @@ LOG_ASSUME = [
 PROPS = {
     "C01": dict(
         lean_modules=["Liftbridge.Props.C01"],
-        gen_sources=["server/commitlog/"],
+        gen_sources=LOG_SOURCES,
         go_pkg="./server/commitlog", test="TestVerifC01",
         level="proof",
         assumptions=LOG_ASSUME,
         trusted=["OS file system and mmap below the modelled append/rename semantics"],
+    ),
+    "C09": dict(
+        lean_modules=["Liftbridge.Props.C09"],
+        gen_sources=["server/commitlog/delete_cleaner.go"],
+        go_pkg="./server/commitlog", test="TestVerifC09",
+        level="proof",
+        assumptions=LOG_ASSUME + ["the clock is an explicit input: computeTTL is mocked to return the ttl of each clean"],
+        trusted=["OS file system below the modelled delete semantics"],
     ),
     "C14": dict(
         lean_modules=["Liftbridge.Props.C14"],
